@@ -61,6 +61,10 @@ def run(v):
     ensure_dirs()
     hbin = build_harness()
     fam = D.help_family(SEED + 120, 500 if v.tier == "quick" else 6000)
+    import random
+    rnd = random.Random(SEED)
+    for d in fam[::4]:
+        D.replace_help_names(d, rnd, 0.5)
     recs, t = judge_render(v, "C12", hbin, fam, "h")
     levels = len(recs)
     samples = [{"def": r["def"], "path": r["path"], "items": r["items"][:12]} for r in recs[5:8]]
